@@ -457,6 +457,9 @@ Compatible(X) ==
    /\ \A a, b \in X : a # b => /\ a.slot # b.slot
                                /\ (a.n = "" \/ a.k # b.k \/ a.n # b.n)
    /\ ~(\E a, b \in X : a.k = "body" /\ b.k = "form")
+   \* shared parameters of whatever kind live in one namespace (#/parameters/): one key, one parameter
+   /\ \A a, b \in X : (a # b /\ {a.k, b.k} \subseteq {"param", "body", "form"}
+                          /\ {a.w, b.w} \subseteq {"shared", "sharedpath"}) => a.n # b.n
    \* a shared parameter that brings a shared response of the same key occupies the default response
    /\ \A a \in X : (a.k = "param" /\ a.w \in {"shared", "sharedpath"} /\ a.x.t = "obj") =>
          /\ ~\E b \in X : b.k = "resp" /\ b.n = "default"
